@@ -57,7 +57,8 @@ NoOpM == [own |-> "", kind |-> "", a |-> "", m |-> 0, d |-> 0, stNow |-> 0,
           pair |-> 0]             \* # 0: the same call issued twice in the same situation, on the ActorRef and through a wrapper
 
 NoMsgM == [op |-> 0, a |-> "", handled |-> 0, acc |-> FALSE, preStop |-> FALSE, postStop |-> FALSE,
-           before |-> {}, rejected |-> FALSE, replied |-> FALSE, rv |-> 0, repNow |-> 0, tr |-> 0]
+           before |-> {}, rejected |-> FALSE, replied |-> FALSE, rv |-> 0, repNow |-> 0, tr |-> 0,
+           tout |-> ""]      \* how the task spawned by this request's (ask_join) handler ended: "" | "ok" | "panic"
 
 MonInit(strict, dd) ==
   [strict |-> strict, dd |-> dd, now |-> 0, bad |-> {}, dlCount |-> 0, crashed |-> FALSE,
@@ -220,8 +221,11 @@ OnOpEnd(mon, ev) ==
            \cup B(isMsg /\ op.afterJoin /\ ev.res # "send", "C11", "send to an ended actor did not fail")
            \cup B(ev.res \notin {"ok","send","timeout","recv","join"}, "C03", "unexpected error kind")
            \* ask_join returns exactly the output, or the join error, of the task the handler spawned
-           \cup B(ev.res = "join" /\ ~(op.kind = "askJ" /\ op.jp), "C03", "join error although the spawned task did not fail")
-           \cup B(op.kind = "askJ" /\ ev.res = "ok" /\ op.jp, "C03", "ask_join returned a value although the spawned task panicked")
+           \cup B(ev.res = "join" /\ ~(op.kind = "askJ" /\ (op.jp \/ M.tout = "panic")), "C03", "join error although the spawned task did not fail")
+           \cup B(op.kind = "askJ" /\ ev.res = "ok" /\ (op.jp \/ M.tout = "panic"), "C03", "ask_join returned a value although the spawned task panicked")
+           \* cooperative traces say when each spawned task ends
+           \cup B(mon.strict /\ op.kind = "askJ" /\ ev.res \in {"ok", "join"} /\ M.tout = "",
+                  "C03", "ask_join returned before the task its handler spawned had ended")
            \cup B(op.kind = "askJ" /\ ev.res = "recv" /\ M.replied, "C03", "ask_join did not return the outcome of the task its handler spawned")
            \* C16: the same call on the ActorRef and through a type-erased wrapper, issued in the same situation
            \cup B(op.pair # 0 /\ \E o2 \in DOMAIN mon.ops : /\ o2 # ev.op /\ mon.ops[o2].pair = op.pair
@@ -360,7 +364,8 @@ OnJoined(mon, ev) ==
   LET a == ev.a  A == ActOf(mon, a)  r == ev.res
       deadlock == r.k = "panic" /\ r.msg = "deadlock"
       exp == ExpectedRes(A)
-      fatalIn == IF deadlock THEN A.inHook ELSE A.panicIn      \* hook in which the task blew up
+      \* hook in which the task blew up (a refused ask panics inside whatever hook issued it, on_run included)
+      fatalIn == IF deadlock THEN (IF A.inHook # "" THEN A.inHook ELSE IF A.runOpen THEN "run" ELSE "") ELSE A.panicIn
       stopExpected == A.startOut = "ok" /\ fatalIn \in {"", "stop"}
       \* every edge of the reported cycle must be an unanswered in-flight ask
       n == Len(ev.cyc)
@@ -511,6 +516,7 @@ MonStep(mon, ev) ==
     [] ev.e = "Sample"     -> OnSample(mon, ev)
     [] ev.e = "Quiescent"  -> OnQuiescent(mon, ev)
     [] ev.e = "Metrics"    -> OnMetrics(mon, ev)
+    [] ev.e = "TaskEnd"    -> UpdM(mon, ev.m, [tout |-> ev.out])
     [] OTHER               -> mon      \* Inapplicable, ErrLog, ...
 
 RECURSIVE MonFold(_, _)
